@@ -18,8 +18,9 @@ THEOREMS = ["C06_required_iff", "C06_roundtrip", "C06_sorted_same_members", "C06
 NoneStr = "```(None)```"
 BASES = ["int", "float", "str", "bool", "dict", "list"]
 MEMBERS = ["np", "tf", "sgd", "adam", "vgg16", "top_k", "a-b", "v1.0", "two words", "x", "Z9"]
-NAMES = ["alpha", "beta", "gamma", "delta", "eps", "zeta", "eta", "theta", "iota"]
-DOCS = [None, "the value", "how many items", "backend engine", "path to file"]
+NAMES = ["alpha", "beta", "gamma", "delta", "eps", "zeta", "eta", "theta", "iota", "launch_kwargs", "log_kwargs"]
+DOCS = [None, "the value", "how many items", "backend engine", "path to file", "port to bind. Defaults to 8080",
+        "interface to bind. Defaults to 0.0.0.0. Use it for all."]
 
 VALIDATOR = r'''
 import json, sys, jsonschema
